@@ -192,6 +192,10 @@ pub struct ReadFaults {
     pub eintr_pm: u16,
     #[serde(default)]
     pub seed: u64,
+    /// F10: one hard (non-retryable) error: armed when history operation `.0` starts, the `.1`-th read/seek
+    /// call from then on fails once
+    #[serde(default)]
+    pub hard: Option<(u32, u32)>,
 }
 
 #[derive(Clone, Debug, PartialEq, Serialize, Deserialize)]
